@@ -376,12 +376,14 @@ def lib_reads(node):
     return out, off
 
 
-def compare(spec, lib, where='top', top=True, prov=None, stats=None, out=None):
-    """-> list of mismatches; fills prov {ev id: schema path} and stats"""
+def compare(spec, lib, where='top', top=True, prov=None, stats=None, out=None, locs=None):
+    """-> list of mismatches; fills prov {ev id: (schema path, cell, lo, hi)}, locs {schema path: (cell, lo, hi)} and stats"""
     if out is None:
         out = []
     if prov is None:
         prov = {}
+    if locs is None:
+        locs = {}
     if stats is None:
         stats = {}
 
@@ -402,6 +404,7 @@ def compare(spec, lib, where='top', top=True, prov=None, stats=None, out=None):
     for s, e, kind, path, lb in items:
         if s >= ltotal:
             bump('unparsed_tail')
+            bump('where:tail:' + str(path if kind != 'c' else path[0][2]))
             break
         while ri < len(reads) and reads[ri][1] <= s:
             ri += 1
@@ -424,13 +427,15 @@ def compare(spec, lib, where='top', top=True, prov=None, stats=None, out=None):
             for a, b, p in path:
                 for r in ov:
                     if (r[0], r[1]) == (a, b) and p is not None:
-                        prov[r[3]] = p
+                        prov[r[3]] = (p, where, a, b)
+                        locs[p] = (where, a, b)
             continue
         exact = [r for r in ov if (r[0], r[1]) == (s, e)]
         if kind in ('u', 'i'):
             if len(ov) == 1 and exact and exact[0][2] == kind:
                 if path is not None:
-                    prov[exact[0][3]] = path
+                    prov[exact[0][3]] = (path, where, s, e)
+                    locs[path] = (where, s, e)
                 bump('typed_ok')
             elif len(ov) == 1 and exact:
                 out.append(dict(desc, kind='signedness' if {kind, exact[0][2]} == {'u', 'i'} else 'type',
@@ -443,12 +448,14 @@ def compare(spec, lib, where='top', top=True, prov=None, stats=None, out=None):
         elif kind == 'v':
             if len(ov) == 1 and exact and exact[0][2] == f'v{lb}':
                 if path is not None:
-                    prov[exact[0][3]] = path
+                    prov[exact[0][3]] = (path, where, s, e)
+                    locs[path] = (where, s, e)
                 bump('typed_ok')
             elif (len(ov) in (1, 2) and ov[0][0] == s and ov[-1][1] == e and ov[0][1] - ov[0][0] == lb
                   and all(r[2] == 'u' for r in ov)):
                 if len(ov) == 2 and path is not None:
-                    prov[ov[1][3]] = path
+                    prov[ov[1][3]] = (path, where, s, e)
+                    locs[path] = (where, s, e)
                 bump('typed_ok')
             else:
                 out.append(dict(desc, kind='width', detail=f'schema field {path} is VarUInteger (prefix {lb} bits, {e - s} bits in all) at bit {s}; '
@@ -456,7 +463,8 @@ def compare(spec, lib, where='top', top=True, prov=None, stats=None, out=None):
         else:   # raw bits
             if len(ov) == 1 and exact and exact[0][2] in ('b', 'u'):
                 if path is not None:
-                    prov[exact[0][3]] = path
+                    prov[exact[0][3]] = (path, where, s, e)
+                    locs[path] = (where, s, e)
                 bump('raw_ok')
             elif ov and all(r[0] >= s and r[1] <= e and r[2] in ('b', 'u') for r in ov) and ov[0][0] == s and (ov[-1][1] == e or ov[-1][1] == ltotal):
                 bump('raw_ok')
@@ -476,17 +484,15 @@ def compare(spec, lib, where='top', top=True, prov=None, stats=None, out=None):
         kids = [k for k in lib.children.get(j, []) if not k.peek]
         if sref is None:
             continue
-        if j >= lrefs and not kids:
-            bump('unparsed_ref')
-            continue
         if not kids:
             bump('unparsed_ref')
+            bump('where:ref:' + str(next((b[2] if b[0] != 'c' else None for b in sref.bits if b[2] is not None), None)))
             continue
         for k in kids:
             if not k.events and not k.children and not k.rest:
                 bump('unparsed_ref')
                 continue
-            compare(sref, k, f'{where}/{j}', False, prov, stats, out)
+            compare(sref, k, f'{where}/{j}', False, prov, stats, out, locs)
     return out
 
 
